@@ -89,6 +89,12 @@ fn main() {
             "SERVE" => dom_serve::serve(rest),
             "EPOLL" => dom_epoll::epoll(rest),
             "MEM" => dom_mem::mem(rest),
+            // STATUS <code>: `Status::of(code)` -> "S <code> <reason hex>"
+            "STATUS" => {
+                let code: u16 = rest.trim().parse().unwrap_or(0);
+                let st = khttp::Status::of(code);
+                format!("S {} {}", st.code, util::hex(st.reason.as_bytes()))
+            }
             _ => "BAD-DOMAIN".to_string(),
         };
         let _ = writeln!(out, "{}", ans);
